@@ -114,12 +114,20 @@ def run(rep, tier, seed, proof_ok):
     for placement, producer, n_loads in itertools.product(PLACEMENTS, ("data-function-before", "keep-before", "earlier-evaluation"), (2, 3)):
         jobs.append({"placement": placement, "producer": producer, "populated": False, "arg_passing": n_loads == 3, "n_loads": n_loads,
                      "events": scenario(placement, producer, False, n_loads == 3, n_loads)})
+    # the loaded path was never produced but is a strict prefix of a committed path (a directory of the data tree)
+    for placement in PLACEMENTS:
+        prog = build(placement, "earlier-evaluation")
+        P.find_func(prog, "m0", "prod")["annot"] = "/p/sub"
+        call = {"a": "call", "mod": "m0", "fn": "root", "style": "eval", "pos": [], "kw": []}
+        prod_call = {"a": "call", "mod": "m0", "fn": "prod", "style": "direct", "pos": [], "kw": []}
+        jobs.append({"placement": placement, "producer": "never", "populated": True, "arg_passing": False, "prefix_of_committed": True,
+                     "events": [("prog", prog), ("act", prod_call), ("act", call), ("act", {"a": "load", "path": "/p"})]})
     with cf.ThreadPoolExecutor(max_workers=C.NPROC) as ex:
         results = list(ex.map(run_one, jobs))
     outcomes = {}
     for job, recs in zip(jobs, results):
         name = f"{job['placement']}/{job['producer']}/{'populated' if job['populated'] else 'fresh'}/{'arg' if job['arg_passing'] else 'ret'}" + \
-            (f"/loads={job['n_loads']}" if job.get("n_loads", 1) > 1 else "")
+            (f"/loads={job['n_loads']}" if job.get("n_loads", 1) > 1 else "") + ("/prefix-of-committed-path" if job.get("prefix_of_committed") else "")
         rep.case(name)
         if isinstance(recs, dict):
             rep.violation("harness-error:c09", f"{name}: " + recs["error"][-300:], job, no_input=True)
